@@ -525,6 +525,22 @@ def directed_runs(ctx):
             if exc is not None:
                 ctx.fail("%s:raises:connected" % fn, "%s: %s" % (type(exc).__name__, exc), case); continue
             oracle_connected(ctx, fn, G, dim, E, fb, case)
+    # clusters joined only by bridges of weight ~1e-6 (float64): the smallest non-trivial eigenvalues are far below 1e-6, so the
+    # trivial pair cannot be recognised by the size of its eigenvalue
+    for gi, (sizes, dim) in enumerate((((5, 6), 1), ((5, 6, 7), 2), ((4, 8, 5), 1), ((6, 6, 6, 6), 3))):
+        rs_ = np.random.RandomState(100 + gi); n = sum(sizes); A = np.zeros((n, n)); o = 0; firsts = []
+        for sz in sizes:
+            A[o:o + sz, o:o + sz] = rs_.uniform(0.2, 1.0, size=(sz, sz)); firsts.append(o); o += sz
+        A = _sym_from_upper(A)
+        for a_, b_ in zip(firsts[:-1], firsts[1:]):
+            A[a_, b_] = A[b_, a_] = 1e-6 * (1 + 0.3 * rs_.random_sample())
+        G = sp.csr_matrix(A)
+        case = graph_case(G, dim, fn="spectral_layout", kind="bridged_clusters", seed=0, kwargs={})
+        E, fb, exc = call_layout("spectral_layout", None, G, dim, 0)
+        ctx.tag(("directed", "bridged", gi), ["directed_bridged_clusters"])
+        if exc is not None:
+            ctx.fail("spectral_layout:raises:connected", "%s: %s" % (type(exc).__name__, exc), case); continue
+        oracle_connected(ctx, "spectral_layout", G, dim, E, fb, case)
     deg = dict(runs=0, multiplicity_missed=0)
     for n in (9, 10, 12, 20):
         G = unit_ring(n)
